@@ -52,8 +52,8 @@ Fixpoint k1_of_k2 (g : geo) (n2 : N) : N :=
 Definition memN (x : N) (l : list N) : bool := existsb (N.eqb x) l.
 Definition addN (x : N) (l : list N) : list N := if memN x l then l else l ++ [x].
 Definition delN (x : N) (l : list N) : list N := filter (fun y => negb (y =? x)) l.
-Fixpoint adel {V} (k : N) (l : list (N * V)) : list (N * V) :=
-  match l with [] => [] | (k', v) :: l' => if k' =? k then l' else (k', v) :: adel k l' end.
+Definition adel {V} (k : N) (l : list (N * V)) : list (N * V) :=
+  filter (fun kv => negb (fst kv =? k)) l.
 
 Definition fwith (s : fsys) l1 l2 mbd idx :=
   mkF (f_geo s) l1 l2 mbd idx (f_next s) (f_locks s) (f_thr s) (f_log s).
